@@ -487,7 +487,12 @@ PROPS = {
         work=[dict(driver="hist", args=["--nops", "60", "--per-file", "6", "--reopen-bias", "1"],
                    quick=48, thorough=1000),
               dict(driver="crash", args=["--nops", "30", "--threads", "2", "--every", "3"],
-                   quick=4, thorough=60)]),
+                   quick=4, thorough=60),
+              # seek-triggered compactions (from gets and from iterator read sampling) and the
+              # trivial moves they lead to
+              dict(driver="hist", args=["--nops", "80", "--per-file", "6", "--profile", "local",
+                                        "--nkeys", "12", "--compact-bias", "1", "--seek-bias", "1"],
+                   quick=32, thorough=800)]),
     "C11": dict(
         design=[(CORE, [Q1], ["MC_RainCore_small.cfg", "MC_RainCore_pins.cfg"])],
         switches=[("Bug_DeletePending", CORE, Q1, "NothingLiveDeleted"),
